@@ -7,7 +7,7 @@ for d in sorted(glob.glob('/verif/seeded/*/meta.json')):
     rows.append((m['id'], m['property_broken'], ", ".join(m['caught_by']) or "-", ", ".join(m['missed_by']) or "-",
                  m['needs_to_manifest']))
 txt = "\n## 10. Which checks catch which seeded changes\n\n"
-txt += ("%d changes were written by independent sub-agents in nine rounds, each agent given only the text of one\n"
+txt += ("%d changes were written by independent sub-agents in ten rounds, each agent given only the text of one\n"
         "property and a scratch worktree of /repo (nothing from /verif), and asked for a change that compiles, passes the\n"
         "289 pinned tests and needs something specific to manifest (the third round was told to avoid name collisions and\n"
         "missing copies, and to look for early-stopping fixpoints, incrementally updated caches, asymmetric operands,\n"
@@ -17,7 +17,9 @@ txt += ("%d changes were written by independent sub-agents in nine rounds, each 
         "iterator --, `is` versus `==`, `x or default` on falsy values, lazily bound loop variables, drifting symmetrical\n"
         "code paths; the eighth at non-termination and exponential blow-up, non-string values (ints, tuples, falsy values),\n"
         "`__eq__` / `__hash__` of the small value classes, declared-but-unused parts of an object, aliasing of collections\n"
-        "passed by the caller; the ninth the same for the other half of the properties). Each was confirmed here in a scratch worktree of /repo HEAD\n"
+        "passed by the caller; the ninth the same for the other half of the properties; the tenth at defects that need two features of the\n"
+        "input at once, at results of operations used as operands, at bounds and partly consumed generators, at the empty\n"
+        "object of each class). Each was confirmed here in a scratch worktree of /repo HEAD\n"
         "(`tools/seedcheck.sh`: the suite passes with the change, the demonstration fails with it and passes without it)\n"
         "and is kept under `/verif/seeded/<id>/` (`patch.diff`, `demo.py`, `notes.md`, `meta.json` with what was run).\n"
         "Patches that later fix commits had made inapplicable were rebased by hand onto the final tree (`meta.json` says so\n"
@@ -94,6 +96,13 @@ re-verified on the unchanged tree over several `VERIF_SEED` values):
   (C09-r9-remove-epsilon-exponential, C12-r9-get-words-per-tree, C15-r9-cyk-node-eq-compares-sons,
   C17-r9-addrec-ter-product-no-memo). C19-r9-production-keeps-body-list is seen by C12 / C15 / C08 and not by C19: its
   live object and its fresh replica are built by the same builder, so a construction-time defect is common to both.
+* Round 10 (two of eighteen missed at first): C12 now also puts its questions to the grammars the library builds itself
+  (`eliminate_unit_productions` and `remove_epsilon` return production *lists* with repetitions:
+  C12-r10-counters-keyed-by-production), C20's text round trip has variable and terminal names that start with a
+  non-ASCII capital (C20-r10-var-marker-non-ascii-capital). Added while the round ran, and used by it: C03 applies a
+  second operation to the result of a first one, the reference being the extraction of the first result
+  (C03-r10-complement-of-startless-dfa is seen through it), C11 intersects the intersection again. A side remark of
+  the C19 agent about the unmodified library became FX-46 (yielded words shared with the enumeration).
 * FX-26 (stale converter index, re-introduced by `./selftest regressions`): scenario template `reintersect` with a
   four-state DFA whose state set re-hashes when a fifth state is added.
 
